@@ -75,11 +75,16 @@ def run(ctx):
 
     stages = []
     if quick:
-        stages.append(("general", ["-seed", seed, "-n", "400", "-eng", ["pebble", "mem"][ctx.seed % 2],
-                                   "-policy", ["compact", "local"][(ctx.seed // 2) % 2]], 3))
+        pol = ["compact", "local"][(ctx.seed // 2) % 2]
+        extra = (["-hidx"] if ctx.seed % 2 == 0 else []) + (["-expired"] if pol == "compact" else [])
+        stages.append(("general", ["-seed", seed, "-n", "400", "-eng", ["pebble", "mem"][ctx.seed % 2], "-policy", pol] + extra, 3))
     else:
         stages.append(("general", ["-seed", seed, "-n", "2500", "-eng", "pebble", "-policy", "compact"], 5))
         stages.append(("general-mem", ["-seed", str(ctx.seed + 500), "-n", "1500", "-eng", "mem", "-policy", "local"], 3))
+        # prior states with expired / nearly expired objects, secondary hash indexes (HIDX) on the table,
+        # path 2 at apply-group sizes 1, 3 and 7
+        stages.append(("general-hidx-expired", ["-seed", str(ctx.seed + 900), "-n", "1500", "-eng", "pebble", "-policy", "compact",
+                                                "-hidx", "-expired", "-http"], 5))
     for name, args in ISOLATE:
         stages.append((name, ["-seed", seed] + args, 2))
 
@@ -178,6 +183,9 @@ def run(ctx):
         checker_cmd="tlc -config ZInputTrace.cfg ZInputTrace (ZR_TRACE=<part>); tlc -config MC_ZInput.cfg ZInput",
     )
     V.write_evidence(ctx, "exploration", cov, assumptions=[
+        "prior states: the base objects of every family, collections beyond 128 elements, (stage/seed dependent) objects "
+        "whose expiry has passed or passes during the run, and two secondary hash indexes (int on f1, string on f2) "
+        "walked to the ready state; path 2 applies the accepted vectors in apply groups of 1, 3 or 7 entries",
         "one replica, one partition, one namespace; the child is limited with ulimit -v (3 GB, 2.5 GB for the JSON "
         "isolate stage) and every command has a deadline (3 s reads, 8 s writes)",
         "'store unchanged' is the digest of the complete raw engine content (HyperLogLog keys through PFCOUNT because "
